@@ -14,6 +14,8 @@ function that builds the protocol with the caller's factory and hands it a fake 
   cuts      byte offsets at which the stream is cut into segments (every offset is enumerated), gaps between segments
   eof       the peer disconnects after that many bytes of the stream (every offset is enumerated); after the complete stream also at the
             reader poll + 0..5 loop turns
+  connect   ok | hang (the connection is never established: `connect_timeout` expires -> ConnectionError) | refuse (the OS refuses)
+  factory   itch/ouch/sqf: the caller's `session_factory`, or the connector's default `ClientSession(...)` branch
   cancel    the caller cancels / times out the attempt: before any reply byte, or at the instant of the reader poll that follows the
             last reply bytes plus 0..5 loop turns (the window in which the reply is handed from the reader to the receive helper
             to `login()`), or via `asyncio.wait_for`
@@ -37,6 +39,7 @@ KINDS = ['soup', 'itch', 'ouch', 'sqf', 'asn1', 'fix']
 HB = 0.004               # client heartbeat interval (virtual seconds)
 SERVER_HB = 1.0          # the scripted peer is silent after its script: keep the remote monitor from tripping
 TICK = 0.0001            # reader poll period of the library
+CONNECT_TIMEOUT = 0.05   # `connect_timeout` handed to the connectors that take one (virtual seconds)
 _DEFS = {}
 _ASN1_OK = None
 _FIXENV = {}
@@ -189,8 +192,13 @@ def data_frame(sc, n):
 
 
 def stream_of(sc):
+    """(bytes up to the end of the peer's answer, whole stream, is there an answer, is it the acceptance); when the reply proper is
+    no answer (a heartbeat, nothing) the first data frame that follows is what `login()` gets as its reply: not an acceptance"""
     rb, complete, accept = reply_bytes(sc)
-    return rb, rb + b''.join(data_frame(sc, n) for n in sc.get('tail', [])), complete, accept
+    frames = [data_frame(sc, n) for n in sc.get('tail', [])]
+    if not complete and frames:
+        return rb + frames[0], rb + b''.join(frames), True, False
+    return rb, rb + b''.join(frames), complete, accept
 
 
 async def next_timer(loop):
@@ -225,6 +233,10 @@ def run_attempt(sc):
     async def fake_create_connection(factory, host=None, port=None, **kw):
         for _ in range(sc.get('delay', 0)):
             await asyncio.sleep(0)
+        if sc.get('connect') == 'hang':
+            await loop.create_future()          # never connects: only `connect_timeout` ends this
+        if sc.get('connect') == 'refuse':
+            raise ConnectionRefusedError('scripted: nobody listens')
         proto = factory()
         tr = T(loop)
         tr.protocol = proto
@@ -261,7 +273,7 @@ def run_attempt(sc):
         if kind == 'soup':
             from nasdaq_protocols import soup
             return soup.connect_async(remote, 'u', 'p', 's', on_msg_coro=on_msg if cb else None, on_close_coro=on_close,
-                                      client_heartbeat_interval=HB, server_heartbeat_interval=SERVER_HB)
+                                      client_heartbeat_interval=HB, server_heartbeat_interval=SERVER_HB, connect_timeout=CONNECT_TIMEOUT)
         if kind == 'fix':
             env = fixenv()
             fix, fm = env['fix'], env['fm']
@@ -278,8 +290,12 @@ def run_attempt(sc):
                                                server_heartbeat_interval=SERVER_HB)
         from nasdaq_protocols import itch, ouch, sqf
         impl = {'itch': itch, 'ouch': ouch, 'sqf': sqf}[kind]
+        if not sc.get('factory', True):
+            # the connector's own `ClientSession(soup_session, on_msg_coro=…, on_close_coro=…)` branch
+            return impl.connect_async(remote, 'u', 'p', 's', on_msg_coro=on_msg if cb else None, on_close_coro=on_close,
+                                      client_heartbeat_interval=HB, server_heartbeat_interval=SERVER_HB, connect_timeout=CONNECT_TIMEOUT)
         return impl.connect_async(remote, 'u', 'p', 's', session_factory=fac, client_heartbeat_interval=HB,
-                                  server_heartbeat_interval=SERVER_HB)
+                                  server_heartbeat_interval=SERVER_HB, connect_timeout=CONNECT_TIMEOUT)
 
     async def attempt():
         try:
@@ -380,6 +396,8 @@ def run_attempt(sc):
             if task.done():
                 break
             await asyncio.sleep(TICK)
+        if not task.done() and sc.get('connect') == 'hang' and kind != 'fix':
+            await asyncio.sleep(6.0)           # the ASN.1 connector takes no `connect_timeout`: the default of 5 s applies
         out['returned'] = task.done()
         if not task.done():
             task.cancel()
@@ -465,12 +483,18 @@ def oracle(sc, out):
     timed = bool(c and c[0] == 'timeout')
     reply_delivered = complete and (eof is None or eof >= len(rb)) and not (c and c[0] == 'before')
     if not out.get('returned'):
-        if eof is not None or reply_delivered or cancel_hit:
+        if sc.get('connect') == 'hang' and sc['kind'] == 'fix' and not cancel_hit and not timed:
+            return v           # fix.connect_async takes no connect timeout: a connection that never comes up is the caller's to bound
+        if eof is not None or reply_delivered or cancel_hit or sc.get('connect') in ('hang', 'refuse'):
             v.append(f'the peer answered / disconnected / the caller cancelled, but the attempt never returned (reply {sc["reply"]}, eof {eof}, cancel {c})')
         return v
     # ---- which outcome
     allowed = None
-    if cancel_hit:
+    if sc.get('connect') == 'hang' and not cancel_hit:
+        allowed = {'connerror'} | ({'timeout'} if timed else set())
+    elif sc.get('connect') == 'refuse' and not cancel_hit:
+        allowed = {'refused'} | ({'timeout'} if timed else set())
+    elif cancel_hit:
         # the cancellation propagates unchanged; only an attempt that was already failing (disconnect / refusal under way) may
         # still end with the refusal
         allowed = {'cancelled'} | ({'refused'} if (eof is not None or (reply_delivered and not accept)) else set())
@@ -505,7 +529,8 @@ def oracle(sc, out):
             if not out.get('hb_written'):
                 v.append('logged in, 2.5 heartbeat intervals of silence, and no heartbeat was written: heartbeating not started')
         tail = sc.get('tail', [])
-        if sc['kind'] != 'fix' and eof is None and out.get('open_after_silence'):
+        # (without a session_factory the generic `ClientSession.decode` knows no application message: nothing decodable to deliver)
+        if sc['kind'] != 'fix' and sc.get('factory', True) and eof is None and out.get('open_after_silence'):
             if sc['mode'] == 'callback':
                 got = [e[1] for e in ev if e[0] == 'msg']
                 want = tail + [99]
@@ -598,9 +623,21 @@ def enumerate_scenarios(kind, rng, full):
     for t in (1, 2, 3, 5, 8):
         out.append(dict(base, reply=['accept'], cuts=[3], gaps=[-1], cancel=['timeout', t]))
         out.append(dict(base, reply=['none'], cancel=['timeout', t]))
-    # 5. slow connect
+    # 5. slow connect; a connection that is never established / is refused; the attempt given up while connecting
     out.append(dict(base, delay=2))
     out.append(dict(base, delay=2, reply=['reject', 'A']))
+    out.append(dict(base, connect='hang', reply=['none']))
+    out.append(dict(base, connect='refuse', reply=['none']))
+    out.append(dict(base, connect='hang', reply=['none'], cancel=['before', 2]))
+    out.append(dict(base, connect='hang', reply=['none'], cancel=['timeout', 3]))
+    # 6. itch / ouch / sqf: the connector's default session (no session_factory)
+    if kind in ('itch', 'ouch', 'sqf'):
+        for mode in ('callback', 'pull'):
+            out.append(dict(base, mode=mode, factory=False))
+            out.append(dict(base, mode=mode, factory=False, tail=[1, 2], cuts=[5], gaps=[-1]))
+            out.append(dict(base, mode=mode, factory=False, reply=['reject', 'A']))
+            out.append(dict(base, mode=mode, factory=False, eof=7))
+            out.append(dict(base, mode=mode, factory=False, cancel=['after', 0, 1]))
     return out
 
 
@@ -609,6 +646,8 @@ def random_scenario(rng, kinds):
     sc = {'kind': kind, 'mode': rng.choice(['callback', 'pull']), 'reply': rng.choice(REPLIES + [['accept']] * 6 + [['hb'], ['none']]),
           'tail': [rng.randint(1, 50) for _ in range(rng.choice([0, 0, 1, 2, 3]))], 'gaps': [rng.choice([0, 0, 1, 2, -1]) for _ in range(3)],
           'delay': rng.choice([0, 0, 1])}
+    if kind in ('itch', 'ouch', 'sqf') and rng.random() < 0.2:
+        sc['factory'] = False
     n = len(stream_of(sc)[1])
     sc['cuts'] = sorted(set(rng.randint(1, max(1, n)) for _ in range(rng.choice([0, 1, 2, 4]))))
     c = rng.random()
@@ -658,7 +697,9 @@ def run_connectors(ctx):
             cases.append(sc)
     if quick:
         # keep the quick tier quick: all of the fully enumerated connector, every third scenario of the others
-        cases = [sc for i, sc in enumerate(cases) if sc['kind'] == pick or i % 3 == ctx.seed % 3]
+        # (the hand-over windows — disconnect / cancellation a few loop turns after the reply — are never sampled away)
+        cases = [sc for i, sc in enumerate(cases)
+                 if sc['kind'] == pick or i % 3 == ctx.seed % 3 or sc.get('eof_turns') or (sc.get('cancel') or [''])[0] == 'after']
     n_rand = 300 if quick else 6000
     for _ in range(n_rand):
         cases.append(random_scenario(random.Random(rng.random()), kinds))
